@@ -16,58 +16,77 @@ def allOpdStrToReg (s : Instr) : Instr :=
   let f (o : Operand) : Operand := { o with reg := strToReg o.str, index := strToReg o.sib }
   { s with opd0 := f s.opd0, opd1 := f s.opd1, opd2 := f s.opd2 }
 
+/-- the zero-initialised record with the option byte and `mod_disp = MOD24`; under SMART the NASM
+    bit is cleared first (src/parser.c:69) -/
+def initInstr (opt : Nat) : Instr :=
+  { opt := if band opt c_SMART_MOV_IMM then opt &&& (255 - c_NASM_MOV_IMM) else opt, modDisp := c_MOD24 }
+
+/-- the operand-kind string `opd_type` (a C string: it ends at the first unused operand) -/
+def opdTypeString (s : Instr) : Str :=
+  ([s.opd0.type, s.opd1.type, s.opd2.type, s.opd3.type]).takeWhile (· != 0)
+
+/-- "[MEM] no register": a memory operand without base and index gets `spl` and mod 00 -/
+def memNoReg (s : Instr) : Instr :=
+  let mi := s.memIndex
+  let m := s.opd mi
+  if m.type == ch! 'm' && m.str.isEmpty && m.sib.isEmpty then
+    { (s.setOpd mi { m with reg := c_spl }) with modDisp := s.modDisp &&& c_MOD16 }
+  else s
+
+/-- `line_to_instr` after `instr_tok`: operand format, register conversion, table key -/
+def lexAfterTok (s : Instr) : R Instr :=
+  let fmt := getOpdFormat opdIndex (opdTypeString s)
+  if fmt == c_opd_error then .error .fail else
+  let s := memNoReg (allOpdStrToReg s)
+  let key := strToInstrKey instrIndex s.instruction fmt
+  if key == c_INSTR_ERROR then .error .fail else .ok { s with key := key }
+
 /-- `line_to_instr` up to and including `str_to_instr_key` — the lexing half. -/
 def lexLine (opt : Nat) (filtered : Str) : R Instr :=
-  let s : Instr := { opt := opt, modDisp := c_MOD24 }
-  let s := if band s.opt c_SMART_MOV_IMM then { s with opt := s.opt &&& (255 - c_NASM_MOV_IMM) } else s
-  match instrTok s filtered with
+  match instrTok (initInstr opt) filtered with
   | .error e => .error e
-  | .ok s =>
-    let opdType : Str := ([s.opd0.type, s.opd1.type, s.opd2.type, s.opd3.type]).takeWhile (· != 0)
-    let fmt := getOpdFormat opdIndex opdType
-    if fmt == c_opd_error then .error .fail else
-    let s := allOpdStrToReg s
-    let mi := s.memIndex
-    let m := s.opd mi
-    let s :=
-      if m.type == ch! 'm' && m.str.isEmpty && m.sib.isEmpty then
-        (s.setOpd mi { m with reg := c_spl }) |> fun s => { s with modDisp := s.modDisp &&& c_MOD16 }
-      else s
-    let key := strToInstrKey instrIndex s.instruction fmt
-    if key == c_INSTR_ERROR then .error .fail else .ok { s with key := key }
+  | .ok s => lexAfterTok s
 
-/-- the rest of `line_to_instr`: branch width, register check, encoding. -/
-def resolveLine (s : Instr) : R Instr :=
-  let r : R Instr :=
-    if s.imm && typeIs s.key c_CONTROL_FLOW then
-      let s : R Instr :=
-        if inR s.cons c_NEG80_32BIT c_MAX_UNSIGNED_32BIT ||
-           (s.cons ≤ c_MAX_SIGNED_8BIT && !s.kw.isLong)
-        then .ok { s with kw := { s.kw with isShort := true } }
-        else if s.cons > c_MAX_SIGNED_8BIT && s.kw.isShort then .error Err.fail
-        else .ok s
-      match s with
-      | .error e => .error e
-      | .ok s =>
-        if (rowAt s.key).enc == c_S && s.cons > c_MAX_SIGNED_8BIT && s.cons < c_NEG80BIT &&
-           !inR s.cons c_NEG80_32BIT c_MAX_UNSIGNED_32BIT then .error .fail else .ok s
-    else .ok s
-  match r with
-  | .error e => .error e
-  | .ok s =>
-    let s := if (rowAt (s.key + 1)).enc == c_S && s.kw.isShort then { s with key := s.key + 1 } else s
-    let s := { s with hex := { s.hex with reg := 0, rex := 0, sib := c_NO_BYTE } }
-    if checkRegistersFail s then .error .fail else
-    let s := if typeIs s.key c_CONTROL_FLOW && inR s.cons (c_NEG32BIT + 1) c_NEG64BIT
-             then { s with cons := s.cons &&& c_MAX_UNSIGNED_32BIT } else s
+/-- relative branches: rel8 / rel32 decision and the two rejections (src/parser.c:93) -/
+def resolveBranch (s : Instr) : R Instr :=
+  if s.imm && typeIs s.key c_CONTROL_FLOW then
     let r : R Instr :=
-      if s.opd0.reg != c_reg_none || s.opd0.index != c_reg_none then
-        encodeOperands (encodeImm (encodeOffset s))
+      if inR s.cons c_NEG80_32BIT c_MAX_UNSIGNED_32BIT ||
+         (s.cons ≤ c_MAX_SIGNED_8BIT && !s.kw.isLong)
+      then .ok { s with kw := { s.kw with isShort := true } }
+      else if s.cons > c_MAX_SIGNED_8BIT && s.kw.isShort then .error Err.fail
       else .ok s
     match r with
     | .error e => .error e
     | .ok s =>
-      .ok (if nameIs s.key c_push && s.cons > c_MAX_SIGNED_8BIT then { s with key := s.key + 1 } else s)
+      if (rowAt s.key).enc == c_S && s.cons > c_MAX_SIGNED_8BIT && s.cons < c_NEG80BIT &&
+         !inR s.cons c_NEG80_32BIT c_MAX_UNSIGNED_32BIT then .error .fail else .ok s
+  else .ok s
+
+/-- `key += is_short` where the next row is a rel8 row; `hex` initialisation -/
+def selectShort (s : Instr) : Instr :=
+  let s := if (rowAt (s.key + 1)).enc == c_S && s.kw.isShort then { s with key := s.key + 1 } else s
+  { s with hex := { s.hex with reg := 0, rex := 0, sib := c_NO_BYTE } }
+
+/-- register check, 32-bit branch displacement, encoding, push imm8/imm32 selection -/
+def resolveRest (s : Instr) : R Instr :=
+  if checkRegistersFail s then .error .fail else
+  let s := if typeIs s.key c_CONTROL_FLOW && inR s.cons (c_NEG32BIT + 1) c_NEG64BIT
+           then { s with cons := s.cons &&& c_MAX_UNSIGNED_32BIT } else s
+  let r : R Instr :=
+    if s.opd0.reg != c_reg_none || s.opd0.index != c_reg_none then
+      encodeOperands (encodeImm (encodeOffset s))
+    else .ok s
+  match r with
+  | .error e => .error e
+  | .ok s =>
+    .ok (if nameIs s.key c_push && s.cons > c_MAX_SIGNED_8BIT then { s with key := s.key + 1 } else s)
+
+/-- the rest of `line_to_instr`: branch width, register check, encoding. -/
+def resolveLine (s : Instr) : R Instr :=
+  match resolveBranch s with
+  | .error e => .error e
+  | .ok s => resolveRest (selectShort s)
 
 /-- What one line of text turns into. -/
 inductive LineOut
